@@ -83,7 +83,7 @@ pub fn read_main(a: &Args) {
             let root = dom.root_ref();
             let r = dom.insert(root, InstanceBuilder::new("Folder").with_property("UniqueId", first));
             let got = dom.get_unique_id(r);
-            if got == Some(first) {
+            if got.map(|g| (g.index(), g.time(), g.random())) == Some((first.index(), first.time(), first.random())) {
                 rep.violation(
                     &format!("C12:decoded-insert-collision-kept:{}", fmt),
                     &format!("{} reader: inserting an instance whose UniqueId is already held by the decoded DOM kept the id", fmt),
@@ -94,10 +94,10 @@ pub fn read_main(a: &Args) {
             rep.count("followup.insert_colliding");
         }
         let fresh = UniqueId::new(0x7fff_0001, 0x7fff_0002, 0x7fff_0003);
-        if !hs.contains(&fresh) {
+        if !hs.contains(&(fresh.index(), fresh.time(), fresh.random())) {
             let root = dom.root_ref();
             let r = dom.insert(root, InstanceBuilder::new("Folder").with_property("UniqueId", fresh));
-            if dom.get_unique_id(r) != Some(fresh) {
+            if dom.get_unique_id(r).map(|g| (g.index(), g.time(), g.random())) != Some((fresh.index(), fresh.time(), fresh.random())) {
                 rep.violation(
                     &format!("C12:decoded-insert-fresh-changed:{}", fmt),
                     &format!("{} reader: inserting an instance with an id not present in the decoded DOM changed it", fmt),
